@@ -9,8 +9,11 @@ STATE_KEYS = ("input", "cx", "yanked", "cy", "offset", "sel", "multi")
 NAME_FIX = {"position": "pos", "delete-char-eof": "delete-char/eof", "backward-delete-char-eof": "backward-delete-char/eof"}
 
 
+LENIENT = False     # True: characters outside the symbol table denote themselves (class 'nonword' for the spec)
+
+
 def state_of(ev):
-    return {"input": chars.syms(ev["input"]), "cx": ev["cx"], "yanked": chars.syms(ev["yanked"]), "cy": ev["cy"],
+    return {"input": chars.syms(ev["input"], LENIENT), "cx": ev["cx"], "yanked": chars.syms(ev["yanked"], LENIENT), "cy": ev["cy"],
             "offset": ev["offset"], "sel": ev["sel"], "multi": ev["multi"]}
 
 
@@ -28,7 +31,7 @@ def fmt_action(act, arg):
 def parse_arg(act, arg):
     """Trace action argument -> spec argument."""
     if act in ("put", "change-query"):
-        return chars.syms(arg)
+        return chars.syms(arg, LENIENT)
     if act == "pos":
         try:
             return int(arg)
@@ -77,7 +80,16 @@ class Cfg:
         return " ".join(self.args())
 
 
-def transitions(trace, cfg, sid, items=None):
+def transitions(trace, cfg, sid, items=None, lenient=False):
+    global LENIENT
+    LENIENT = lenient
+    try:
+        return _transitions(trace, cfg, sid, items)
+    finally:
+        LENIENT = False
+
+
+def _transitions(trace, cfg, sid, items=None):
     """Projects one session's trace onto transition records.  items: the input records (item immutability check)."""
     recs = []
     ids, texts = [], []
@@ -88,7 +100,7 @@ def transitions(trace, cfg, sid, items=None):
     while i < len(evs):
         e = evs[i]
         kind = e["ev"]
-        if not chars.known(e["input"]) or not chars.known(e["yanked"]):
+        if not LENIENT and (not chars.known(e["input"]) or not chars.known(e["yanked"])):
             raise Infra("query outside the symbol table: %r" % e["input"])
         st = state_of(e)
         mi = e.get("maxItems", 0)
@@ -129,7 +141,7 @@ def transitions(trace, cfg, sid, items=None):
                                          env=cfg.env(ids, texts, pe.get("maxItems", mi))))
                     recs.append(dict(base, k="steady", pre=state_of(pe), post=st))
                 else:
-                    arg = chars.syms(pe["ch"]) if act == "char" else parse_arg(act, pe["arg"])
+                    arg = chars.syms(pe["ch"], LENIENT) if act == "char" else parse_arg(act, pe["arg"])
                     if arg is not None:
                         recs.append(dict(base, k="act", act=act, arg=arg, pre=state_of(pe), post=st,
                                          env=cfg.env(ids, texts, pe.get("maxItems", mi))))
